@@ -92,6 +92,17 @@ def run(ck, fx, cg, tier):
     except ImportError:
         ck.note("R13.vm: VM-side orientation rules not built yet")
     _jump_targets(ck, fx, cg)
+    # "the documented number of times" rests on the VM running the emitted instructions one after another: every
+    # handler moves the instruction pointer exactly as its S1 row says (next instruction, the label, the callee's start,
+    # the saved return address). An extra or missing bump anywhere silently skips or repeats instructions — prints,
+    # assignments and allocations then happen a different number of times. These are C05's handler rows.
+    from . import shared as _sh13
+    # (a row can also fail for reasons that do not move control — a missing fault check, a wrong operand — those are
+    # C05's / C10's alone and are not counted against this property)
+    CONTROL = ("state effects", "return address", "ip is", "does not jump", "does not fall through", "instruction pointer", "truthiness")
+    _sh13.presuppose(ck, fx, cg, "C05", lambda o: o["rule"] == "R5.op" and o["key"].split("|")[0].startswith("eval_") and
+                     (o["ok"] or any(w in o["detail"] for w in CONTROL)), "R13.vm",
+                     "every instruction handler advances / transfers control as its row says (C05 handler rows)", floor=20)
 
 
 def _jump_targets(ck, fx, cg):
